@@ -590,6 +590,69 @@ def record_sig_spends(run: Run, n: int) -> list[dict[str, Any]]:
     return evs
 
 
+def record_nullfail_spends(run: Run) -> list[dict[str, Any]]:
+    """OP_CHECKMULTISIG (and OP_CHECKSIG) with every arrangement of valid, empty and wrong signatures, under NULLFAIL and without it, the check's result kept or
+    inverted by OP_NOT: Core's rule is that a failed check leaves no non-empty signature among ALL that were given, matched or not."""
+    import itertools
+
+    from btclib.curves import mult
+    from btclib.ecc import dsa
+    from btclib.exceptions import BTClibException
+    from btclib.script import sig_hash
+    from btclib.script.engine import verify_input
+    from btclib.script.script_pub_key import ScriptPubKey
+    from btclib.script.witness import Witness
+    from btclib.tx import OutPoint, Tx, TxIn, TxOut
+
+    r = random.Random(run.seed + 23)
+    N_ = 0xFFFFFFFFFFFFFFFFFFFFFFFFFFFFFFFEBAAEDCE6AF48A03BBFD25E8CD0364141
+    evs = []
+
+    def push(b: bytes) -> bytes:
+        return b"\x00" if not b else bytes([len(b)]) + b
+
+    for m, nk in ((1, 1), (1, 2), (2, 2), (2, 3), (3, 3)):
+        ds = [r.randrange(1, N_) for _ in range(nk)]
+        keys = []
+        for d in ds:
+            P = mult(d)
+            keys.append(bytes([2 + P[1] % 2]) + P[0].to_bytes(32, "big"))
+        for tail in (b"", b"\x91"):
+            script = bytes([0x50 + m]) + b"".join(push(k) for k in keys) + bytes([0x50 + nk]) + b"\xae" + tail
+            for wrap in ("p2wsh", "bare"):
+                spk = ScriptPubKey.p2wsh(script).script if wrap == "p2wsh" else script
+                amount = 40_000
+                prev = TxOut(amount, ScriptPubKey(spk, check_validity=False), check_validity=False)
+                for states in itertools.product(("valid", "empty", "wrong"), repeat=m):
+                    for nullfail in (True, False):
+                        tx = Tx(2, 0, [TxIn(OutPoint(b"\x23" * 32, 0), b"", 0xFFFFFFFE, check_validity=False)], [TxOut(30_000, ScriptPubKey(b"\x51", check_validity=False), check_validity=False)], check_validity=False)
+                        digest = sig_hash.segwit_v0(script, tx, 0, 1, amount) if wrap == "p2wsh" else sig_hash.legacy(script, tx, 0, 1)
+                        sigs = []
+                        for j, st in enumerate(states):
+                            d = ds[nk - m + j]                      # the last m keys, in order
+                            if st == "empty":
+                                sigs.append(b"")
+                            else:
+                                msg = digest if st == "valid" else bytes([digest[0] ^ 1]) + digest[1:]
+                                sigs.append(dsa.sign_(msg, d).serialize() + b"\x01")
+                        if wrap == "p2wsh":
+                            tx.vin[0].script_witness = Witness([b"", *sigs, script])
+                        else:
+                            tx.vin[0].script_sig = b"\x00" + b"".join(push(x) for x in sigs)
+                        flags = consistent({"P2SH", "WITNESS", "DERSIG", "NULLDUMMY"} | ({"NULLFAIL"} if nullfail else set()))
+                        try:
+                            verify_input([prev], tx, 0, flags)
+                            ok: Any = True
+                        except BTClibException:
+                            ok = False
+                        except Exception as e:  # noqa: BLE001
+                            ok = f"foreign {type(e).__name__}: {e}"[:120]
+                        evs.append({"op": "verify", "tx": tx.serialize(include_witness=True, check_validity=False).hex(), "prevouts": [{"value": nat(amount), "spk": spk.hex()}], "idx": 0, "flags": flags, "ok": ok,
+                                    "kind": f"multisig {m}-of-{nk} {wrap} signatures {'/'.join(states)}{' NOT' if tail else ''}{' NULLFAIL' if nullfail else ''}"})
+    return evs
+
+
+
 def record_tapscript_codesep_spends(run: Run) -> list[dict[str, Any]]:
     """Tapscript leaves whose signature checks sit behind OP_CODESEPARATORs: a BIP342 signature commits to the position (counted in op codes, pushes
     included) of the last OP_CODESEPARATOR executed before its check, 0xffffffff where none was.  Every leaf shape (the separator after each op code that
@@ -823,6 +886,7 @@ def check(run: Run) -> None:
     sig_evs += record_sig_spends(run, 1500 if thorough else 300)
     sig_evs += record_tapscript_sig_spends(run, 1200 if thorough else 300)
     sig_evs += record_tapscript_codesep_spends(run)
+    sig_evs += record_nullfail_spends(run)
     for e in sig_evs:
         if isinstance(e["ok"], str):
             run.violation(f"script|verify|foreign|{e['ok'].split(':')[0]}", f"verify_input ({e.get('kind')}) raised {e['ok']}", {"event": e})
